@@ -334,7 +334,15 @@ func cmdCheck(args []string) int {
 		}
 		hs = append(hs, h)
 		dirSet[h.Dir] = true
-		funcsByDir[h.Dir] = append(funcsByDir[h.Dir], h.Func)
+		dup := false
+		for _, f := range funcsByDir[h.Dir] {
+			if f == h.Func {
+				dup = true
+			}
+		}
+		if !dup {
+			funcsByDir[h.Dir] = append(funcsByDir[h.Dir], h.Func)
+		}
 	}
 	if len(hs) == 0 {
 		fmt.Fprintln(os.Stderr, "no harness selected")
